@@ -111,13 +111,15 @@ class NativeVC:
         return tuple(self._mk_opaque(tag, ident) for ident in self._get(name))
 
     def _mk_opaque(self, tag, ident):
-        key = (tag if tag in ("addr", "option", "host") else "obj", ident)
+        key = (tag if tag in ("addr", "option", "host", "host6") else "obj", ident)
         if key not in self._intern:
             k = len([1 for (t, _) in self._intern if t == key[0]])
             if tag == "addr":
                 self._intern[key] = ("10.9.%d.%d" % (k // 250, k % 250 + 1), 30490)
             elif tag == "host":
                 self._intern[key] = "10.8.%d.%d" % (k // 250, k % 250 + 1)
+            elif tag == "host6":
+                self._intern[key] = "fd00::%x" % (k + 1)
             elif tag == "option":
                 import someip.header
 
@@ -128,6 +130,9 @@ class NativeVC:
 
     def _any_from_json(self, j):
         if isinstance(j, list):
+            if len(j) in (2, 4) and isinstance(j[0], str) and j[0].startswith("Obj!") and isinstance(j[1], int):
+                # a socket address: (host, port) or (host, port, flowinfo, scope_id)
+                return (self._mk_opaque("host6" if len(j) == 4 else "host", j[0]),) + tuple(self._any_from_json(x) for x in j[1:])
             return tuple(self._any_from_json(x) for x in j)
         if isinstance(j, str) and j.startswith("Obj!"):
             return self._mk_opaque("host", j)
@@ -288,7 +293,9 @@ class NativeVC:
         saved = (asyncio.sleep, asyncio.gather)
         asyncio.sleep = lambda d, *a, **k: _Sleep(d)
         asyncio.gather = _gather
-        cancel_at = self.model.get("cancel_at", -1) if cancellable else -1
+        # a model without a cancellation point (e.g. an arbitrary iteration of an endless
+        # loop) is replayed with a late cancellation so that the coroutine ends
+        cancel_at = self.model.get("cancel_at", 12) if cancellable else -1
         loop = getattr(self, "_loop", None)
         k = 0
         pending_exc = None
@@ -523,6 +530,11 @@ class _LazyNativeDict(dict):
     def __setitem__(self, key, value):
         self._decided.add(key)
         dict.__setitem__(self, key, value)
+
+    def clear(self):
+        # everything, also what was never looked at, is gone
+        dict.clear(self)
+        self._touch = lambda key: None
 
 
 class GenVC(NativeVC):
